@@ -15,7 +15,7 @@
 from __future__ import annotations
 
 import ast
-from typing import Any, Dict, List, Optional, Set
+from typing import Any, Dict, List, Optional, Set, Tuple
 
 from engine.srcmatch import U
 from engine.model import AnalysisError, Program, dotted, walk_no_nested
@@ -261,8 +261,16 @@ def run(ctx: Any, prog: Program) -> None:
         mod = prog.module(modname)
         for qual, fns in mod.all_funcs().items():
             for fn in fns:
+                # a bound method taken into a local (`release = self.map.face_id.discard`) is that manager call under another name
+                bound: Dict[str, Tuple[str, str]] = {}
+                for a_ in walk_no_nested(fn):
+                    if isinstance(a_, ast.Assign) and len(a_.targets) == 1 and isinstance(a_.targets[0], ast.Name) and isinstance(a_.value, ast.Attribute) and isinstance(a_.value.value, ast.Attribute) \
+                            and a_.value.value.attr in ALL_MGRS and a_.value.attr in ('discard', 'remove', 'clear'):
+                        bound[a_.targets[0].id] = (a_.value.value.attr, a_.value.attr)
                 for n in walk_no_nested(fn):
                     mc = mgr_call(n)
+                    if mc is None and isinstance(n, ast.Call) and isinstance(n.func, ast.Name) and n.func.id in bound:
+                        mc = (bound[n.func.id][0], bound[n.func.id][1], n)
                     if not mc or mc[1] not in ('discard', 'remove', 'clear'):
                         continue
                     mgr, meth, call = mc
@@ -480,6 +488,7 @@ def run(ctx: Any, prog: Program) -> None:
 
 
 MUTANTS = [
+    {'id': 'solid_del_releases_face_ids_through_alias', 'file': 'vmf.py', 'find': "        \"\"\"Forget this solid's ID when the object is destroyed.\"\"\"\n        self.map.solid_id.discard(self.id)\n", 'replace': "        \"\"\"Forget this solid's ID when the object is destroyed.\"\"\"\n        self.map.solid_id.discard(self.id)\n        release_face = self.map.face_id.discard\n        for side in self.sides:\n            release_face(side.id)\n", 'expect': 'C08.D4'},
     {'id': 'nodeid_only_for_node_classes', 'file': 'vmf.py', 'find': "        elif key_fold == 'nodeid':\n", 'replace': "        elif key_fold == 'nodeid' and self['classname'].casefold().startswith('info_node'):\n", 'expect': 'C08.D4'},
     {'id': 'fixup_update_imports_foreign_indexes', 'file': 'vmf.py', 'find': "    @overload\n    def setdefault(self, var: str, /, default: str = ...) -> str: ...", 'replace': "    def update(self, other: Any = (), /, **kwargs: ValidKVs) -> None:  # type: ignore[override]\n        if isinstance(other, EntityFixup) and self._fixup.keys().isdisjoint(other._fixup):\n            for folded_var, fix in other._fixup.items():\n                self._fixup[folded_var] = FixupValue(fix.var, fix.value, fix.id)\n            self._matcher = None\n            other = ()\n        super().update(other, **kwargs)\n\n    @overload\n    def setdefault(self, var: str, /, default: str = ...) -> str: ...", 'expect': 'C08.D5'},
     {'id': 'setdefault_index_from_len', 'file': 'vmf.py', 'find': "            self[folded_var] = default\n            return default", 'replace': "            self._fixup[folded_var] = FixupValue(intern(var), conv_kv(default), len(self._fixup) + 1)\n            self._matcher = None\n            return default", 'expect': 'C08.D5'},
